@@ -296,6 +296,9 @@ impl<S: StoredVec<I = usize, T = usize>, G: StoredVec<I = usize, T = usize>> Cas
                 let nonempty = t.len() > 0;
                 drop(t);
                 t = EagerVec::<G>::forced_import(&self.db, "t", Version::new(1)).unwrap();
+                // the recorded version is now whatever was last persisted (an empty vector persists nothing): the
+                // "exactly one input changed since the last call" reference starts afresh
+                self.ver_at_compute = None;
                 if nonempty && t.header().computed_version() != rec { Err(format!("C19: recorded version {:?} became {:?} across re-import", rec, t.header().computed_version())) } else { Ok(()) }
             }
             _ => Ok(()),
